@@ -1075,3 +1075,22 @@ def single_precision_sites(fb, root, crates):
             if t_['k'] == 'call' and 'ty' in t_['dest'] and ob.tystr(t_['dest']['ty']) == 'f32' and (ob.path, bi) not in [(a, b) for a, b, _ in narrow]:
                 narrow.append((ob.path, bi, ob.where(bi)))
     return n_float, narrow
+
+
+ENDLESS_SOURCES = ('RepeatWith<', 'mpsc::Iter<', 'mpsc::IntoIter<', 'sync::mpsc::Iter<')
+LOOPING_CONSUMERS = ('find', 'any', 'all', 'for_each', 'try_for_each', 'position', 'count', 'last', 'find_map', 'fold', 'try_fold')
+
+
+def has_loop(fb, body):
+    """does the function loop: a MIR back-edge, or a std iterator consumer driven by an endless source (`repeat_with(..)`,
+    `rx.iter()`), which is a loop whose body is the adaptors' closures"""
+    if body.back_edges():
+        return True
+    for bb, t, fn in body.calls():
+        if not fn or fn['path'].split('::')[-1] not in LOOPING_CONSUMERS or not fn['path'].startswith('std::iter::Iterator::'):
+            continue
+        for a in t.get('args') or []:
+            pl = a.get('p') if isinstance(a, dict) else None
+            if pl and 'ty' in pl and any(src in body.tystr(pl['ty']) for src in ENDLESS_SOURCES):
+                return True
+    return False
